@@ -312,6 +312,9 @@ func c20SubCycle(args []string) {
 }
 
 func c20RunCycleJob(shape, api string) string {
+	if strings.HasPrefix(shape, "g:") {
+		return c20RunGenJob(shape, api)
+	}
 	var err error
 	var p any
 	if api == "-" {
@@ -392,4 +395,187 @@ func c20SubIndent(args []string) {
 			return
 		}
 	}
+}
+
+// ---- generated cycle family -------------------------------------------------------------
+//
+// A cycle is a ring of L cells.  Every cell is an addressable variable of interface kind
+//   A  any            B  C20Box (named empty interface)      I  c20I (interface{ M() })
+// living in the field Next of a holder struct (C20HA / C20HB / C20HI, whose pointer types have M).
+// Cell i-1 holds a link to cell i; the link flavour is
+//   p  *K   pointer to the cell            q  **K  pointer to a pointer to the cell
+//   n  named pointer type (type NPK *K)    s  *HK  pointer to the holder struct (the only deepening hop,
+//                                                   and the only flavour a cell of kind I can hold)
+// A spec is the string of (kind, flavour-of-the-link-INTO-this-cell) pairs, e.g. "Bp" is
+// `var b C20Box; b = &b`, "ApBq" is `a = &&b; b = &a`.  Entry points into the ring:
+//   ptr    the link into cell 0          iface  the value held by cell 0
+//   field / slice / map / array          the link into cell 0 as struct field, slice element, map value, array element
+//   embed  a struct embedding the holder pointer (only when the link into cell 0 has flavour s)
+
+type C20Box interface{}
+type c20I interface{ M() }
+type C20HA struct{ Next any }
+type C20HB struct{ Next C20Box }
+type C20HI struct{ Next c20I }
+
+func (*C20HA) M() {}
+func (*C20HB) M() {}
+func (*C20HI) M() {}
+
+type c20NPA *any
+type c20NPB *C20Box
+type c20NPI *c20I
+type C20EA struct{ *C20HA }
+type C20EB struct{ *C20HB }
+type C20EI struct{ *C20HI }
+
+var c20GenEntries = []string{"ptr", "iface", "field", "slice", "map", "array", "embed"}
+
+// c20GenSpecs enumerates every ring of length L (a cell of kind I can only hold flavour s).
+func c20GenSpecs(L int) []string {
+	var out []string
+	var rec func(prefix string, kinds []byte)
+	rec = func(prefix string, kinds []byte) {
+		i := len(prefix) / 2
+		if i == L {
+			out = append(out, prefix)
+			return
+		}
+		// the link into cell i is held by cell i-1 (cyclically)
+		holder := kinds[(i+L-1)%L]
+		flavours := "pqns"
+		if holder == 'I' {
+			flavours = "s"
+		}
+		for _, f := range []byte(flavours) {
+			rec(prefix+string([]byte{kinds[i], f}), kinds)
+		}
+	}
+	var kindsRec func(ks []byte)
+	kindsRec = func(ks []byte) {
+		if len(ks) == L {
+			rec("", ks)
+			return
+		}
+		for _, k := range []byte("ABI") {
+			kindsRec(append(append([]byte{}, ks...), k))
+		}
+	}
+	kindsRec(nil)
+	return out
+}
+
+func c20GenPointerOnly(spec string) bool { return !strings.Contains(spec, "s") }
+
+// c20GenBuild constructs the ring and returns the value for the entry point (ok=false: entry not applicable).
+func c20GenBuild(spec, entry string) (v any, ok bool) {
+	L := len(spec) / 2
+	holders := make([]reflect.Value, L) // pointers to holder structs
+	for i := 0; i < L; i++ {
+		switch spec[2*i] {
+		case 'A':
+			holders[i] = reflect.ValueOf(&C20HA{})
+		case 'B':
+			holders[i] = reflect.ValueOf(&C20HB{})
+		case 'I':
+			holders[i] = reflect.ValueOf(&C20HI{})
+		default:
+			return nil, false
+		}
+	}
+	link := func(i int) reflect.Value {
+		cell := holders[i].Elem().Field(0).Addr() // *K
+		switch spec[2*i+1] {
+		case 'p':
+			return cell
+		case 'q':
+			pp := reflect.New(cell.Type())
+			pp.Elem().Set(cell)
+			return pp
+		case 'n':
+			switch spec[2*i] {
+			case 'A':
+				return reflect.ValueOf(c20NPA(cell.Interface().(*any)))
+			case 'B':
+				return reflect.ValueOf(c20NPB(cell.Interface().(*C20Box)))
+			default:
+				return reflect.ValueOf(c20NPI(cell.Interface().(*c20I)))
+			}
+		default: // 's'
+			return holders[i]
+		}
+	}
+	for i := 0; i < L; i++ {
+		prev := (i + L - 1) % L
+		if spec[2*prev] == 'I' && spec[2*i+1] != 's' {
+			return nil, false // a cell of kind I can only hold a pointer to a holder struct
+		}
+		holders[prev].Elem().Field(0).Set(link(i))
+	}
+	l0 := link(0)
+	switch entry {
+	case "ptr":
+		return l0.Interface(), true
+	case "iface":
+		return holders[0].Elem().Field(0).Interface(), true
+	case "field":
+		st := reflect.New(reflect.StructOf([]reflect.StructField{{Name: "F", Type: l0.Type()}})).Elem()
+		st.Field(0).Set(l0)
+		return st.Interface(), true
+	case "slice":
+		s := reflect.MakeSlice(reflect.SliceOf(l0.Type()), 1, 1)
+		s.Index(0).Set(l0)
+		return s.Interface(), true
+	case "map":
+		m := reflect.MakeMap(reflect.MapOf(reflect.TypeFor[string](), l0.Type()))
+		m.SetMapIndex(reflect.ValueOf("k"), l0)
+		return m.Interface(), true
+	case "array":
+		a := reflect.New(reflect.ArrayOf(1, l0.Type())).Elem()
+		a.Index(0).Set(l0)
+		return a.Interface(), true
+	case "embed":
+		if spec[1] != 's' {
+			return nil, false
+		}
+		switch h := holders[0].Interface().(type) {
+		case *C20HA:
+			return C20EA{h}, true
+		case *C20HB:
+			return C20EB{h}, true
+		case *C20HI:
+			return C20EI{h}, true
+		}
+	}
+	return nil, false
+}
+
+// c20RunGenJob runs one generated job "g:<spec>@<entry>"; api is a marshal entry point, or
+// "Unmarshal" / "v1.Unmarshal" (the ring is the target; the input `1` is never consumed by a pointer-only ring).
+func c20RunGenJob(shape, api string) string {
+	spec, entry, _ := strings.Cut(strings.TrimPrefix(shape, "g:"), "@")
+	v, ok := c20GenBuild(spec, entry)
+	if !ok {
+		return "n/a"
+	}
+	if c20GenPointerOnly(spec) {
+		debug.SetMaxStack(c20StackCyclic)
+	} else {
+		debug.SetMaxStack(c20StackChain)
+	}
+	var err error
+	p := guard(func() {
+		switch api {
+		case "Unmarshal":
+			err = json.Unmarshal([]byte("1"), v)
+		case "v1.Unmarshal":
+			err = jsonv1.Unmarshal([]byte("1"), v)
+		default:
+			err = c20CallMarshal(api, v)
+		}
+	})
+	if p != nil {
+		return "panic " + strings.ReplaceAll(fmt.Sprint(p), "\n", " ")
+	}
+	return c20Class(err)
 }
